@@ -150,23 +150,19 @@ Definition kind_of {S} (e : fexpr S) : kind :=
   | FBregman _ _ _ => KBregman
   end.
 
-(* Behaviour switches for recorded findings (measured by the harness):
-   v_qp_lin_const = true : FunctionalQuadraticPerturb is flagged linear only
-   when its constant is 0 (repaired); false : the constant is ignored. *)
-Record variants := mkVariants { v_qp_lin_const : bool }.
-
-(* Operator.is_linear as set by each constructor *)
-Fixpoint is_linear (vs : variants) {S} (e : fexpr S) : bool :=
+(* Operator.is_linear as set by each constructor (current /repo: RightVectorMult
+   keeps the flag of its functional, QuadraticPerturb is linear only when both the
+   quadratic coefficient and the constant vanish) *)
+Fixpoint is_linear {S} (e : fexpr S) : bool :=
   match e with
   | FLeaf l => lf_linear l
-  | FLeftScal _ f => is_linear vs f
-  | FRightScal f _ => is_linear vs f
-  | FRightVec _ _ => false
-  | FSum f g => is_linear vs f && is_linear vs g
+  | FLeftScal _ f => is_linear f
+  | FRightScal f _ => is_linear f
+  | FRightVec f _ => is_linear f
+  | FSum f g => is_linear f && is_linear g
   | FTrans _ _ => false
-  | FComp f A => is_linear vs f && op_linear A
-  | FQuadPert f a _ c =>
-      is_linear vs f && (a =? nzero) && (if v_qp_lin_const vs then c =? nzero else true)
+  | FComp f A => is_linear f && op_linear A
+  | FQuadPert f a _ c => is_linear f && (a =? nzero) && (c =? nzero)
   | FProd _ _ | FQuot _ _ | FBregman _ _ _ => false
   end.
 
@@ -252,9 +248,9 @@ Definition mk_translated {S} (e : fexpr S) : car S -> fexpr S :=
   | e' => fun t => FTrans e' t
   end.
 (* f * s  (Functional.__mul__ with a scalar) *)
-Definition f_mul_scalar (vs : variants) {S} (e : fexpr S) (s : T) : fexpr S :=
+Definition f_mul_scalar {S} (e : fexpr S) (s : T) : fexpr S :=
   if s =? nzero then FLeaf (leaf_const S (value e (szero S)))
-  else if is_linear vs e then FLeftScal s e else FRightScal e s.
+  else if is_linear e then FLeftScal s e else FRightScal e s.
 (* s * f  (Functional.__rmul__) *)
 Definition f_rmul_scalar {S} (s : T) (e : fexpr S) : fexpr S :=
   if s =? nzero then FLeaf (leaf_const S nzero) else FLeftScal s e.
@@ -262,8 +258,8 @@ Definition f_rmul_scalar {S} (s : T) (e : fexpr S) : fexpr S :=
 Definition f_add_scalar {S} (e : fexpr S) (c : T) : fexpr S := FSum e (FLeaf (leaf_const S c)).
 Definition f_sub {S} (e g : fexpr S) : fexpr S := FSum e (f_rmul_scalar (- none_) g).
 Definition f_neg {S} (e : fexpr S) : fexpr S := f_rmul_scalar (- none_) e.
-Definition f_div_scalar (vs : variants) {S} (e : fexpr S) (s : T) : fexpr S :=
-  f_mul_scalar vs e (none_ / s).
+Definition f_div_scalar {S} (e : fexpr S) (s : T) : fexpr S :=
+  f_mul_scalar e (none_ / s).
 
 End Generic.
 
